@@ -43,14 +43,15 @@ fn graph(dep: bool, dup: bool) -> PackageGraph {
     g
 }
 
-fn structural(files: &Files, filler: usize, change: &mut Change, with_graph: Option<bool>, dup: bool) {
+fn structural(files: &Files, filler: usize, change: &mut Change, with_graph: Option<bool>, dup: bool, one: bool) {
     let mut app = FileSet::default();
     let mut lib = FileSet::default();
     app.insert(FileId(0), VfsPath::new("/app/gleam.toml"));
     lib.insert(FileId(1), VfsPath::new("/lib/gleam.toml"));
     for (i, (n, _)) in files.iter().enumerate() {
-        if i == 0 {
-            app.insert(FileId(MOD0), VfsPath::new(format!("/app/src/{n}.gleam")));
+        if i == 0 || one {
+            // (`one`: every module belongs to the package `app` - modules of one package may import each other in a cycle)
+            app.insert(FileId(MOD0 + i as u32), VfsPath::new(format!("/app/src/{n}.gleam")));
         } else {
             lib.insert(FileId(MOD0 + i as u32), VfsPath::new(format!("/lib/src/{n}.gleam")));
         }
@@ -71,7 +72,7 @@ fn structural(files: &Files, filler: usize, change: &mut Change, with_graph: Opt
     }
 }
 
-fn fresh(files: &Files, filler: usize, dep: bool, dup: bool) -> AnalysisHost {
+fn fresh(files: &Files, filler: usize, dep: bool, dup: bool, one: bool) -> AnalysisHost {
     let mut host = AnalysisHost::new();
     let mut c = Change::default();
     c.change_file(FileId(0), "".into());
@@ -86,7 +87,7 @@ fn fresh(files: &Files, filler: usize, dep: bool, dup: bool) -> AnalysisHost {
         c.change_file(FileId(DUP_TOML), "".into());
         c.change_file(FileId(DUP_MOD), DUP_TEXT.into());
     }
-    structural(files, filler, &mut c, Some(dep), dup);
+    structural(files, filler, &mut c, Some(dep), dup, one);
     host.apply_change(c);
     host
 }
@@ -213,15 +214,16 @@ fn main() {
                 let mut files = files_of(&hist[0]["files"]);
                 let mut dep = hist[0]["dep"].as_bool().unwrap_or(true);
                 let mut dup = hist[0]["dup"].as_bool().unwrap_or(false);
-                let mut host = fresh(&files, filler, dep, dup);
+                let mut one = hist[0]["one"].as_bool().unwrap_or(false);
+                let mut host = fresh(&files, filler, dep, dup, one);
                 // the long-lived analysis has answered everything about the initial workspace before the first change
                 // (memoised results exist that the change must invalidate)
                 let warm = answers(&host, &files, false, filler);
                 // `check_seed`: the initial workspace itself is compared too (answers must not depend on the order of
                 // the queries or on the instance: fresh, fresh asked in reverse order, and the warm one)
                 if case["check_seed"].as_bool().unwrap_or(false) {
-                    let f1 = answers(&fresh(&files, filler, dep, dup), &files, false, filler);
-                    let f2 = answers(&fresh(&files, filler, dep, dup), &files, true, filler);
+                    let f1 = answers(&fresh(&files, filler, dep, dup, one), &files, false, filler);
+                    let f2 = answers(&fresh(&files, filler, dep, dup, one), &files, true, filler);
                     compared += warm.len() as u64;
                     steps += 1;
                     for (((k, a), (_, b)), (_, c2)) in warm.iter().zip(f1.iter()).zip(f2.iter()) {
@@ -260,6 +262,7 @@ fn main() {
                     let new_files = files_of(&st["files"]);
                     let new_dep = st["dep"].as_bool().unwrap_or(dep);
                     let new_dup = st["dup"].as_bool().unwrap_or(dup);
+                    let new_one = st["one"].as_bool().unwrap_or(one);
                     // the change, built the way the server builds it: changed files only; roots when a file appears;
                     // the package graph alone when only a dependency edge changed
                     let mut c = std::mem::take(&mut pending);
@@ -272,17 +275,24 @@ fn main() {
                         c.set_package_graph(graph(new_dep, dup && new_files.len() >= 2));
                     }
                     let renamed = new_files.iter().zip(files.iter()).any(|((n, _), (o, _))| n != o);
-                    if new_dup != dup {
+                    if new_one != one {
+                        // the library modules move into the package `app` or back: the roots are replaced (same files, new paths)
+                        if new_dup && !dup {
+                            c.change_file(FileId(DUP_TOML), "".into());
+                            c.change_file(FileId(DUP_MOD), DUP_TEXT.into());
+                        }
+                        structural(&new_files, filler, &mut c, Some(new_dep), new_dup, new_one);
+                    } else if new_dup != dup {
                         // the second dependency appears / disappears: its files, the roots and the graph in one change
                         if new_dup {
                             c.change_file(FileId(DUP_TOML), "".into());
                             c.change_file(FileId(DUP_MOD), DUP_TEXT.into());
                         }
-                        structural(&new_files, filler, &mut c, Some(new_dep), new_dup);
+                        structural(&new_files, filler, &mut c, Some(new_dep), new_dup, one);
                     } else if new_files.len() != files.len() || renamed {
-                        structural(&new_files, filler, &mut c, if rng.chance(1, 2) || dup { Some(new_dep) } else { None }, dup);
+                        structural(&new_files, filler, &mut c, if rng.chance(1, 2) || dup { Some(new_dep) } else { None }, dup, one);
                     } else if new_dep == dep && rng.chance(1, 6) {
-                        structural(&new_files, filler, &mut c, if rng.chance(1, 2) { Some(new_dep) } else { None }, dup);   // roots / graph replaced by equal ones
+                        structural(&new_files, filler, &mut c, if rng.chance(1, 2) { Some(new_dep) } else { None }, dup, one);   // roots / graph replaced by equal ones
                     }
                     // batched with the next edit: the analysis gets both in one change (several contents for one file)
                     if st["batched"].as_bool().unwrap_or(false) && si + 1 < hist.len() && hist[si + 1]["op"]["k"] != "query" {
@@ -290,6 +300,7 @@ fn main() {
                         files = new_files;
                         dep = new_dep;
                         dup = new_dup;
+                        one = new_one;
                         batched += 1;
                         continue;
                     }
@@ -297,10 +308,11 @@ fn main() {
                     files = new_files;
                     dep = new_dep;
                     dup = new_dup;
+                    one = new_one;
                     steps += 1;
                     let long = answers(&host, &files, false, filler);
-                    let f1 = answers(&fresh(&files, filler, dep, dup), &files, false, filler);
-                    let f2 = answers(&fresh(&files, filler, dep, dup), &files, true, filler);
+                    let f1 = answers(&fresh(&files, filler, dep, dup, one), &files, false, filler);
+                    let f2 = answers(&fresh(&files, filler, dep, dup, one), &files, true, filler);
                     compared += long.len() as u64;
                     for (((k, a), (_, b)), (_, c2)) in long.iter().zip(f1.iter()).zip(f2.iter()) {
                         if a != b || b != c2 {
